@@ -316,6 +316,9 @@ func (c *Ctx) binaryTensorOp(op string, fn *ssa.Function, a []Value) Value {
 		if ys != nil {
 			ye = ys[i]
 		}
+		if xe.Sort != ye.Sort && c.Ring {
+			xe, ye = c.realOfConst(xe), c.realOfConst(ye)
+		}
 		if xe.Sort != ye.Sort {
 			panic(c.abort("%s: element sorts %v vs %v but gorgonia accepted", op, xe.Sort, ye.Sort))
 		}
@@ -738,4 +741,22 @@ func (c *Ctx) registerArith(tab map[string]intrinsicFn) {
 		return c.retTensorErr(c.finishResult(res, funcOpts{}, s.dt, out), nil, fn.Signature)
 	}
 	c.registerReductions(tab)
+}
+
+// realOfConst: in exact real arithmetic a finite IEEE constant (built natively, e.g. by tensor.Ones or a scalar
+// operand) means the same number as a real.
+func (c *Ctx) realOfConst(t *smt.Term) *smt.Term {
+	if !t.IsConst() || !t.Sort.IsFP() {
+		return t
+	}
+	var f float64
+	if t.Sort.K == smt.KFP32 {
+		f = float64(t.F32Val())
+	} else {
+		f = t.F64Val()
+	}
+	if f != f || f-f != 0 {
+		return t
+	}
+	return c.St.RealF(f)
 }
